@@ -106,6 +106,9 @@ type faultBackend struct {
 func (f *faultBackend) PutObject(bucket, key string, meta map[string]string, input io.Reader, size int64) (gofakes3.PutObjectResult, error) {
 	if f.w.FailPuts > 0 {
 		f.w.FailPuts--
+		// like the bundled backends, whose PutObject merges the replaced object's metadata
+		// into the map it was given before it writes anything - and then the write fails
+		gofakes3.MergeMetadata(f.Backend, bucket, key, meta)
 		return gofakes3.PutObjectResult{}, errors.New("injected storage fault: no space left on device")
 	}
 	return f.Backend.PutObject(bucket, key, meta, input, size)
